@@ -317,13 +317,13 @@ theorem c15_constructed (hrp : String) (orb : Bytes) (pid : Int) (a : Attrs) (pa
   exact ⟨hat, hft⟩
 
 /-- **Every payload built through the module's constructors serialises to a memo that parses back to an equal payload.**
-The only assumptions are facts of the argument types (uint32, 256-bit integers) and, for a Hyperlane forwarding, that the
-hook metadata and the denomination of a *zero* maximum fee are printable ASCII (the first is `0x` + hex whenever validation
-accepts it; the second is the one string no constructor validates). -/
+The only assumptions are facts of the argument types (uint32 numbers, integers of at most 256 bits): every string the
+constructors accept is printable ASCII (bech32 addresses, decimal / hex / octal amounts, `0x`+hex hook metadata, SDK
+denominations — after fix `477a9aa`, which closed the one gap: any denomination string was accepted with a zero maximum fee,
+and one that is not valid UTF-8 did not survive the encoding). -/
 theorem c15_constructor_roundtrip (π : OneofOrder) (nilPass : Bool) (hrp : String) (orb : Bytes) (pid : Int) (a : Attrs) (pass : Bytes)
     (f : Forwarding) (acts : List Action) (p : Payload)
     (ha : a.isForwarding = true ∧ a.typed = true)
-    (hh : ∀ t d r k hm g fd fa, a = .hyp t d r k hm g fd fa → strOk hm = true ∧ (fa = 0 → strOk fd = true))
     (hf : newAttrsForwarding hrp orb pid a pass = .ok f)
     (hacts : ∀ act ∈ acts, ∃ l : List FeeInfo, l.all FeeInfo.typed = true ∧ newFeeAction hrp l = .ok act)
     (hp : newPayload f acts = .ok p) :
@@ -349,12 +349,12 @@ theorem c15_constructor_roundtrip (π : OneofOrder) (nilPass : Bool) (hrp : Stri
     simp only [Res.pure_eq, Res.ok.injEq] at hx
     subst hx
     cases u
-    exact attrs_validate_textOk hrp orb (.fee l) (by simp only [Attrs.validate]; exact hval) (by intro _ _ _ _ _ _ _ _ e; cases e)
+    exact attrs_validate_textOk hrp orb (.fee l) (by simp only [Attrs.validate]; exact hval)
   unfold Payload.textOk
   simp only [Bool.and_eq_true, List.all_eq_true]
   refine ⟨hacts', ?_⟩
   simp only [hfa.1]
-  exact attrs_validate_textOk hrp orb a hfa.2 hh
+  exact attrs_validate_textOk hrp orb a hfa.2
 
 /-! non-vacuity: a concrete constructor-built payload meets the hypotheses -/
 example :
